@@ -654,7 +654,7 @@ theorem lenBounds_of_admits {t : Ty} {rf : Rfn} {p : Payload} {n : Nat} (ht : t.
 theorem lengthU_sound_partial (o w r : Value) (hk : o.whollyKnown = true) (hmo : o.isMarked = false)
     (hmw : w.isMarked = false) (hfo : o.wfc = true) (hc : CoversX w o = true)
     (hwdyn : w.ty = .dyn → w.isKnown = false)
-    (hobj : ∀ ns ts os, o.ty ≠ .object ns ts os) (hset : ∀ e, o.ty ≠ .set e)
+    (hset : ∀ e, o.ty ≠ .set e)
     (ho : lengthU o = .ok r) : ∃ r', lengthU w = .ok r' ∧ Covers r' r = true := by
   have hg : CoversG true w o = true := hc
   have hm := ty_of_coversG hg
@@ -677,7 +677,7 @@ theorem lengthU_sound_partial (o w r : Value) (hk : o.whollyKnown = true) (hmo :
     · have := hb rf rfl (by simpa using hd)
       exact covers_lenRange this.1 this.2
   obtain ⟨to, po⟩ := o
-  simp only at hm hobj hset
+  simp only at hm hset
   cases to with
   | tuple es =>
     simp only [lengthU, Res.ok.injEq] at ho
@@ -738,7 +738,16 @@ theorem lengthU_sound_partial (o w r : Value) (hk : o.whollyKnown = true) (hmo :
         rw [hrf] at hcp
         simp only [Payload.stripMarks, coversP] at hcp
         exact lenBounds_of_admits (n := vs.length) hd (by simp [possibleLen, stripMarksL_length]) (by simp) (by simp) (by simp) hfit hcp
-  | object ns ts os => exact absurd rfl (hobj ns ts os)
+  | object ns ts os =>
+    simp only [lengthU, Res.ok.injEq] at ho
+    have hfit : (ns.length : Int) ≤ maxInt := by
+      simp only [Value.lenFits, Bool.and_eq_true, decide_eq_true_eq] at hlf; exact hlf.1
+    rcases matches_object_right hm with hwd | ⟨ts', os', hwt, _⟩
+    · exact hunk ns.length hfit ho.symm (Or.inl hwd) (fun rf _ h => by rw [hwd] at h; simp [Ty.isDyn] at h) (hwdyn hwd)
+    · obtain ⟨tw, pw⟩ := w
+      simp only at hwt; subst hwt
+      refine ⟨intVal ns.length, by simp [lengthU], ?_⟩
+      rw [← ho]; exact covers_numVal_self _
   | set e => exact absurd rfl (hset e)
   | dyn => cases po <;> simp [lengthU, Value.isKnown, Payload.isKnown, Payload.unmark1, Value.whollyKnown, Payload.whollyKnown, Value.isMarked, Payload.isMarked] at ho hk hmo
   | bool => cases po <;> simp [lengthU, Value.isKnown, Payload.isKnown, Payload.unmark1, Value.whollyKnown, Payload.whollyKnown, Value.isMarked, Payload.isMarked] at ho hk hmo
